@@ -84,6 +84,13 @@ where
         if crate::oracle::settle(&ctx).await {
             *ctx.last_step_note.borrow_mut() = format!("at quiescence after the concurrent session {}", si);
             check_all_queries::<K>(&ctx, &shared, "quiescent", 2_000_000 + si as u32).await;
+            // a restore makes a closed blob (whose deletion markers are outside the dirty accounting, a
+            // recorded finding that cannot be told apart here) the active blob: only sessions without a
+            // successful restore are judged
+            let restored = ctx.history.borrow().iter().any(|h| h.session == si && matches!(h.kind, OpKind::TryRestore | OpKind::RestoreBg) && !matches!(h.result, OpResult::Err(_) | OpResult::Skipped));
+            if !restored && !sess.lazy_init && si == 0 {
+                crate::oracle::check_dirty_bound(&ctx, &shared).await;
+            }
         }
         let storage = match Rc::try_unwrap(shared) {
             Ok(s) => s,
@@ -225,6 +232,21 @@ where
             maintenance_seen = false;
             continue;
         }
+        if let OpKind::FlipSweep { blob, rec, class, max_positions } = &op.kind {
+            flip_sweep::<K>(ctx, st.as_ref().unwrap(), op.uid, *blob, *rec, *class, *max_positions).await;
+            continue;
+        }
+        if let OpKind::CheckNow = &op.kind {
+            let storage = st.as_ref().unwrap();
+            let phase = base_phase(&plan, si).unwrap_or(if maintenance_seen { "maintenance" } else { "step" });
+            *ctx.last_step_note.borrow_mut() = format!("at CheckNow uid={}", op.uid);
+            check_all_queries::<K>(ctx, storage, phase, op.uid).await;
+            if crate::oracle::settle(ctx).await {
+                check_all_queries::<K>(ctx, storage, phase, op.uid).await;
+                crate::oracle::check_accounting(ctx, storage, phase).await;
+            }
+            continue;
+        }
         if let OpKind::CheckDumped = &op.kind {
             crate::oracle::check_dumped::<K>(ctx, st.as_ref().unwrap()).await;
             continue;
@@ -305,6 +327,61 @@ where
         }
     }
     *ctx.ignored.borrow_mut() = ignored;
+}
+
+/// C05 sweep: every sampled byte position of one region of one stored record gets a burst while the
+/// storage is open; all queries are compared; the bytes are restored before the next position.
+pub async fn flip_sweep<K>(ctx: &Rc<RunCtx>, storage: &Storage<K>, uid: u32, blob: usize, rec: usize, class: ByteClass, max_positions: u32)
+where
+    for<'a> K: Key<'a> + AsRef<K> + 'static,
+{
+    let world = ctx.world.clone();
+    crate::oracle::settle(ctx).await;
+    let att: Vec<usize> = ctx.attached().into_iter().collect();
+    if att.is_empty() {
+        return;
+    }
+    let b = att[blob % att.len()];
+    let name = format!("{}.{}.blob", PREFIX, b);
+    let Some(original) = world.inner.borrow().shadows.get(&name).map(|s| s.content.clone()) else { return };
+    let region = {
+        let w = world.inner.borrow();
+        let recs: Vec<&PhysRec> = w.phys.get(&b).map(|v| v.iter().filter(|r| r.complete).collect()).unwrap_or_default();
+        if recs.is_empty() {
+            return;
+        }
+        let r = recs[rec % recs.len()];
+        let hl = record_header_len(ctx.key_len) as u64;
+        match class {
+            ByteClass::Data => (r.offset + hl + r.meta_size, r.offset + r.total_len),
+            ByteClass::Meta => (r.offset + hl, r.offset + hl + r.meta_size),
+            ByteClass::RecHeader => (r.offset, r.offset + hl),
+            ByteClass::BlobHeader => (0, BLOB_HEADER_LEN as u64),
+        }
+    };
+    let len = region.1.saturating_sub(region.0);
+    if len == 0 {
+        return;
+    }
+    let n = (max_positions as u64).min(len);
+    for i in 0..n {
+        // all positions of short regions, evenly spread positions of long ones
+        let off = if len <= max_positions as u64 { i } else { i * len / n };
+        let mask = 1u32 << ((i * 7 + uid as u64) % 8) | if i % 3 == 0 { 0x8100 } else { 0 };
+        let hit = crate::faults::apply_bitflip(ctx, b, rec, class, off as u32, mask);
+        if hit.is_none() {
+            break;
+        }
+        world.probe("flip_sweep_position");
+        *ctx.last_step_note.borrow_mut() = format!("flip sweep uid={} blob {} {:?} offset {} mask {:#x}", uid, b, class, off, mask);
+        check_all_queries::<K>(ctx, storage, "bitflip", uid).await;
+        // restore the original bytes
+        world.set_file_content(&name, Some(original.clone()));
+        ctx.damaged.borrow_mut().retain(|(db, _, _)| *db != b);
+        if ctx.violations.borrow().iter().any(|v| v.property.contains("C05")) {
+            break;
+        }
+    }
 }
 
 pub async fn observed_active<K>(st: &Storage<K>) -> Option<usize>
@@ -460,7 +537,7 @@ where
     if base_phase(&plan, si).is_none() {
         crate::oracle::compare_counters_after_restart(ctx, &counters_before, &s2, damage).await;
     }
-    if plan.check_each_step {
+    if plan.check_each_step || plan.profile.contains("deepindex") {
         let nviol = ctx.violations.borrow().iter().filter(|v| v.property.contains("C03")).count();
         check_all_queries::<K>(ctx, &s2, base_phase(&plan, si).unwrap_or("restart"), uid).await;
         if accounting && crate::oracle::settle(ctx).await {
